@@ -10,6 +10,7 @@ import (
 	"strings"
 	"sync"
 	"time"
+	"verif/harness/stats"
 
 	"github.com/f1bonacc1/process-compose/src/app"
 	"github.com/f1bonacc1/process-compose/src/command"
@@ -107,6 +108,16 @@ func LoadProject(dir string, procs []ProcSpec, strict bool, logLength int, top .
 }
 
 // Begin loads the project, builds a runner behind the fake commander and starts Run().
+var leftoverStreak int
+
+func firstLines(s string, n int) string {
+	l := strings.Split(s, "\n")
+	if len(l) > n {
+		l = l[:n]
+	}
+	return strings.Join(l, "\n")
+}
+
 // ErrLeftover: the case was not started because an earlier case of this process has not come to rest.
 var ErrLeftover = errors.New("an earlier case has not come to rest")
 
@@ -136,8 +147,17 @@ func Begin(s *Scenario) (*Exec, error) {
 	// this case's world. Wait until everything left over is parked for good; otherwise do not start.
 	if ok, busy := world.Settle(8 * time.Second); !ok {
 		e.H.Busy = "a goroutine of an earlier case is still active: " + busy
+		leftoverStreak++
+		if leftoverStreak >= 2 {
+			// it never comes to rest: every further case of this process would wait and be skipped.
+			// Give the remaining cases up; what was explored so far stays in the statistics.
+			fmt.Printf("SHARD-ABANDONED: a goroutine left over by an earlier (inconclusive) case never came to rest:\n%s\n", firstLines(busy, 40))
+			stats.FlushAll()
+			os.Exit(5)
+		}
 		return e, ErrLeftover
 	}
+	leftoverStreak = 0
 	w.Behave = func(name string, k int) world.Behaviour {
 		sp := e.specFor(name)
 		if sp == nil || len(sp.Beh) == 0 {
@@ -477,6 +497,9 @@ func (e *Exec) snap(final bool) {
 // shutdown is requested if anything keeps restarting; finally Run() must have returned.
 func (e *Exec) Finish() *History {
 	defer e.cleanup()
+	if e.R != nil && e.H.Busy != "" {
+		e.wreck()
+	}
 	if e.R == nil || e.H.Busy != "" {
 		return e.finalize()
 	}
@@ -523,6 +546,28 @@ func (e *Exec) Finish() *History {
 	e.W.ReleaseAllHolds()
 	e.settleAndSnap(true)
 	return e.finalize()
+}
+
+// wreck: the case is inconclusive (quiescence was not reached) and will not be judged; bring its
+// runner down as well as possible so that it does not keep working (an unlimited restart loop would
+// run for ever) while the next cases of this process execute.
+func (e *Exec) wreck() {
+	e.W.ReleaseAllHolds()
+	r := e.R
+	go func() {
+		defer func() { _ = recover() }()
+		_ = r.ShutDownProject()
+	}()
+	for i := 0; i < 20; i++ {
+		live := e.W.LiveCmds("")
+		for _, c := range live {
+			c.Exit(0)
+		}
+		time.Sleep(5 * time.Millisecond)
+		if len(live) == 0 && i > 2 {
+			break
+		}
+	}
 }
 
 func (e *Exec) finalize() *History {
